@@ -24,11 +24,34 @@ public:
   void pop_front() { slots[head] = nullptr; head++; }
 };
 }
+#ifdef RACE
+// C11 only: the harness registers the pool's and the workers' storage as shared regions and needs to name them;
+// Worker.hpp's own classes are read as structs (the std headers it includes are already in and are not affected)
+#include <condition_variable>
+#include <memory>
+#include <mutex>
+#include <thread>
+#include <vector>
+#define class struct
+#define private public
+#endif
 #include "parallel/Worker.hpp"
+#ifdef RACE
+#undef class
+#undef private
+#endif
 int counters[T+1];
 static WorkerPool *poolp;
-extern "C" void h_pool_setup() { poolp = new WorkerPool(W); }
 static int running[T + 1];
+extern "C" void h_pool_setup() {
+  poolp = new WorkerPool(W);
+#ifdef RACE
+  verif_shared(poolp, sizeof(WorkerPool));
+  for (int i = 0; i < W; i++) verif_shared(poolp->workers[i].get(), sizeof(Worker));
+  verif_shared(counters, sizeof counters);
+  verif_shared(running, sizeof running);
+#endif
+}
 extern "C" void h_pool() {
   WorkerPool &pool = *poolp;
 #ifdef LAST_TASK_STOPS
@@ -37,7 +60,11 @@ extern "C" void h_pool() {
     pool.add_task([i, &pool]() { verif_assert(running[i] == 0, 2); running[i] = 1; counters[i]++; running[i] = 0; if (i == T - 1) pool.stop_all_workers(); });
   if (T == 0) pool.stop_all_workers();
 #else
+#ifdef VERIF_TSAN
+  for (int i = 0; i < T; i++) pool.add_task([i]() { running[i] = 1; for (volatile int k = 0; k < 20000; k++) {} counters[i]++; running[i] = 0; });
+#else
   for (int i = 0; i < T; i++) pool.add_task([i]() { verif_assert(running[i] == 0, 2); running[i] = 1; counters[i]++; running[i] = 0; });
+#endif
   pool.stop_all_workers();
 #endif
   pool.wait_workers();
